@@ -181,3 +181,41 @@ def name_catalogue():
         else:
             out.add(n.capitalize() if n.islower() else n.lower())
     return sorted(x for x in out if re.fullmatch(r"[A-Za-z][A-Za-z0-9_]*", x))
+
+
+# ------------------------------------------------------------------ identifiers the generated code itself uses
+HARVEST_SCHEMA = ("scalar Upload\nenum E { A }\ninput I { a: Int e: E }\ninterface N { id: ID }\ntype T implements N { id: ID e: E sub(a: Int, i: I): T }\nunion U = T\n"
+                  "type Query { t(i: I, e: E): T n: N u: U }\ntype Mutation { m(f: Upload, i: I): T }\ntype Subscription { s(a: Int): T }\n")
+HARVEST_QUERIES = ("query GetT($i: I, $e: E) { t(i: $i, e: $e) { ...F sub(a: 1) { id } } n { id ... on T { e } } u { ... on T { id } } }\nfragment F on T { id e }\n"
+                   "mutation DoM($f: Upload, $i: I) { m(f: $f, i: $i) { id } }\nsubscription OnS($a: Int) { s(a: $a) { id } }\n")
+
+
+def harvest_generated_identifiers():
+    """Names bound anywhere in a generated package (parameters, locals, functions, classes, imported names) — a GraphQL name equal to one of them
+    is 'a name that collides with a generated helper name'.  Computed by generating one feature-rich package in a forked child."""
+    import ast as _ast
+    from . import genpkg, pool
+
+    def gen(_):
+        names = set()
+        for opts in ({"enable_custom_operations": True}, {"async_client": False, "opentelemetry_client": True}):
+            with genpkg.scratch() as d:
+                pkg, pdir, _ = genpkg.generate(d, HARVEST_SCHEMA, HARVEST_QUERIES if opts.get("async_client", True) else HARVEST_QUERIES.split("subscription")[0], dict(opts))
+                import os
+                for fn in os.listdir(pdir):
+                    if not fn.endswith(".py"):
+                        continue
+                    tree = _ast.parse(open(os.path.join(pdir, fn)).read())
+                    for node in _ast.walk(tree):
+                        if isinstance(node, _ast.arg):
+                            names.add(node.arg)
+                        elif isinstance(node, _ast.Name) and isinstance(node.ctx, _ast.Store):
+                            names.add(node.id)
+                        elif isinstance(node, (_ast.FunctionDef, _ast.AsyncFunctionDef, _ast.ClassDef)):
+                            names.add(node.name)
+                        elif isinstance(node, _ast.alias):
+                            names.add((node.asname or node.name).split(".")[0])
+        own = re.compile(r"^(GetT|DoM|OnS|TFields|TGraphQL|NGraphQL|NInterface|UUnion)|^[A-Z]$")   # names coming from the harvest schema itself
+        return sorted(n for n in names if re.fullmatch(r"[A-Za-z][A-Za-z0-9_]*", n) and not n.startswith("__") and not own.search(n))
+    st, r = pool.run_forked(gen, None, timeout=300)
+    return r if st == "ok" else []
